@@ -66,6 +66,32 @@ def run(ctx):
                                   (i, cls.__name__, cls.get_id(fc.context)),
                                   {'table': tname, 'version': pv, 'id': i},
                                   key={'table': tname, 'version': pv, 'id': i, 'kind': 'wrong-class'})
+    # ONE context object whose version is reassigned (what Connection does on every connect / negotiation):
+    # each reactor built on it must carry exactly the ids of the CURRENT version
+    import random as _random
+    wrng = _random.Random(ctx.seed)
+    shared = FakeConn()
+    shared.context = C.ConnectionContext(protocol_version=47)
+    for tname, R in reactors.items():
+        rows = {pv: ents for pv, supported, ents in tabs[tname] if supported}
+        walk = [47, 757, 340, 754, 47] + [wrng.choice(sorted(rows)) for _ in range(ctx.scale(25, 250))]
+        for pv in walk:
+            if pv not in rows:
+                continue
+            shared.context.protocol_version = pv
+            ctx.case(('reactor-walk', tname, pv))
+            try:
+                r = R(shared)
+                keys = set(r.clientbound_packets)
+            except Exception as e:
+                keys = repr(e)
+            ids = {i for _, i in rows[pv]}
+            if keys != ids:
+                ctx.violation('%s built on a context that was used for other versions before: at protocol %d its ids are %s, '
+                              'the registered classes have %s' % (R.__name__, pv, sorted(keys, key=repr)[:8] if isinstance(keys, set) else keys,
+                                                               sorted(i for i in ids if i is not None)[:8]),
+                              {'table': tname, 'version': pv}, key={'table': tname, 'version': pv, 'kind': 'reused-context'})
+                break
     # the documented re-initialisation entry points must leave the id tables as they are: the plain
     # `initglobals()` (after a user edited SUPPORTED_MINECRAFT_VERSIONS) and the full rebuild
     try:
